@@ -15,6 +15,7 @@ import Tranp.Lemmas.PropKeys
 import Tranp.Lemmas.ProcedureHistory
 import Tranp.Generated.ProcedureState
 import Tranp.Generated.NodeClasses
+import Tranp.Generated.GetterShapes
 
 namespace Tranp.C09
 open Tranp Tranp.Procedure
@@ -528,5 +529,75 @@ example :
       ["condition".toList, "statements".toList, "else_ifs".toList, "else_clause".toList] ∧
     (NodeClasses.table.classes.map (·.name)).idxOf "Var".toList ∈ NodeClasses.terminals := by
   decide +kernel
+
+/-! ### WF clause 4 for the shipped node definitions: annotation = shape of the getter body (table generated from the
+    bodies of the 102 expandable getters on every run) -/
+
+open Tranp.Generated in
+/-- the shape table speaks about exactly `prop_keys()` of every shipped class, keys in `prop_keys()` order: nothing the
+    event builder iterates over (procedure.py:196-197) is left unanalysed -/
+theorem shipped_getters_cover :
+    GetterShapes.shapes.map (fun row => row.map (·.1)) =
+      (List.range NodeClasses.table.classes.length).map NodeClasses.table.pure := by
+  decide +kernel
+
+open Tranp.Generated in
+/-- for every shipped class and every key of its `prop_keys()`: the definition `getattr(cls, key)` resolves to is
+    annotated `list[...]` (what `__is_prop_list_by` reads, procedure.py:209-210) exactly when every `return` of its body
+    yields a list (what `__prop_expand` sees, node.py:258) -/
+theorem shipped_annotation_matches_body : ∀ row ∈ GetterShapes.shapes, ∀ e ∈ row, e.2.1 = e.2.2 := by
+  decide +kernel
+
+open Tranp.Generated in
+/-- an instance of a shipped class whose property values have the shape of the getter bodies: keys, annotation flags
+    and run-time shapes are the row of its class (the harness compares every exported node with this row) -/
+def ShippedShaped (n : PNode) : Prop :=
+  ∃ c, c < NodeClasses.table.classes.length ∧
+    n.props.map (fun p => (p.key, p.annList, p.isMany)) = GetterShapes.shapes.getD c [] ∧
+    (n.terminal = true → NodeClasses.table.pure c = [])
+
+open Tranp.Generated in
+theorem shippedShaped_instance (n : PNode) (h : ShippedShaped n) : ShippedInstance n := by
+  obtain ⟨c, hc, hrow, ht⟩ := h
+  refine ⟨c, hc, ?_, ht⟩
+  have hcov := congrArg (fun l => l.getD c []) shipped_getters_cover
+  simp only [List.getD_eq_getElem?_getD, List.getElem?_map, List.getElem?_range hc, Option.map_some, Option.getD_some] at hcov
+  rw [← hcov]
+  have : n.props.map PProp.key = (n.props.map (fun p => (p.key, p.annList, p.isMany))).map (·.1) := by
+    simp [List.map_map, Function.comp_def]
+  rw [this, hrow]
+  cases hg : GetterShapes.shapes[c]? <;> simp [List.getD_eq_getElem?_getD, hg]
+
+open Tranp.Generated in
+theorem shippedShaped_clause4 (n : PNode) (h : ShippedShaped n) : ∀ p ∈ n.props, p.annList = p.isMany := by
+  obtain ⟨c, _, hrow, _⟩ := h
+  intro p hp
+  have hmem : (p.key, p.annList, p.isMany) ∈ GetterShapes.shapes.getD c [] := by
+    rw [← hrow]; exact List.mem_map.mpr ⟨p, hp, rfl⟩
+  rw [List.getD_eq_getElem?_getD] at hmem
+  cases hg : GetterShapes.shapes[c]? with
+  | none => simp [hg] at hmem
+  | some row =>
+    simp only [hg, Option.getD_some] at hmem
+    exact shipped_annotation_matches_body row (List.mem_of_getElem? hg) _ hmem
+
+/-- For trees of shipped node classes whose property values have the shape of the getter bodies, ALL of `WF` but clause 2
+    holds by the generated tables: what remains is "nothing under a node whose properties yield nothing" (`under_clause_iff`). -/
+theorem shipped_wf_reduces_to_under (root : PNode) (hs : ∀ m ∈ visited root, ShippedShaped m)
+    (h2 : ∀ m ∈ visited root, m.terminal = false → (propExpand m.props).isEmpty = true → m.under.isEmpty = true) :
+    WF root ∧ ∀ m ∈ visited root, KeyConsistent m :=
+  shipped_wf_reduces root (fun m hm => shippedShaped_instance m (hs m hm)) h2 (fun m hm => shippedShaped_clause4 m (hs m hm))
+
+open Tranp.Generated in
+/-- non-vacuity: an `If` node (class id by name) with one condition, no statements, no else-ifs and an else clause is
+    `ShippedShaped`; the row of `If` has two list-shaped and two single getters -/
+example :
+    let c := (NodeClasses.table.classes.map (·.name)).idxOf "If".toList
+    GetterShapes.shapes.getD c [] =
+      [("condition".toList, false, false), ("statements".toList, true, true), ("else_ifs".toList, true, true), ("else_clause".toList, false, false)] ∧
+    ShippedShaped (.mk 9 ['i', 'f'] false
+      [.one "condition".toList false (leaf 1), .many "statements".toList true [], .many "else_ifs".toList true [],
+       .one "else_clause".toList false (leaf 2)] []) := by
+  refine ⟨by decide +kernel, (NodeClasses.table.classes.map (·.name)).idxOf "If".toList, by decide +kernel, by decide +kernel, by simp [PNode.terminal]⟩
 
 end Tranp.C09
